@@ -494,3 +494,33 @@ def rule_merge_order(ctx, F):
     ok = len(cs) == 2 and cs[0][1][1] == "Hasher::merge_cv_stack" and cs[0][1][2] == (("arg", 1, "self"), ("arg", 3, "chunk_counter")) \
         and norm_path(cs[1][1][1]).endswith("ArrayVec::<T, CAP>::push") and pc.dominates(cs[0][0], cs[1][0])
     ctx.ob(ok, "push_cv-merges-then-pushes", pc.loc, "push_cv = merge_cv_stack(chunk_counter); cv_stack.push(new_cv): %s" % ok)
+
+
+def rule_LZ(ctx, F):
+    """lazy chunk closing (Rust): update turns the *current* chunk state into an interior chaining value
+    (push_cv(chunk_state.output().chaining_value())) only on an edge where more input is known to follow"""
+    fn = F.need_fn("Hasher::update_with_join")
+    inp = [l for l in range(len(fn.locals)) if fn.names.get(l) == "input"]
+    n = 0
+    for bi, t in fn.calls():
+        if not callee_name(t["callee"]).endswith("push_cv"):
+            continue
+        e = val(fn.expr_call(t))
+        cv = e[2][1]
+        own = find_sub(cv, ("call", "ChunkState::output", (("path", ("arg", 1, "self"), ("chunk_state",)),))) is not None or \
+            find_sub(cv, ("call", W(), (("path", ("arg", 1, "self"), ("chunk_state",)),))) is not None and "output" in show(cv)
+        if not own:
+            continue
+        n += 1
+        gs = guards_at(fn, bi)
+        ok = any(c[0] == "call" and norm_path(c[1]).endswith("is_empty") and find_sub(c, ("phi", inp[0], "input")) is not None and tr is False for c, tr in gs) or \
+            any(c[0] == "bin" and c[1] in ("Gt", "Ne") and "len" in show(c) and find_sub(c, ("phi", inp[0], "input")) is not None and tr is True for c, tr in gs)
+        if ok:
+            for d in fn.defs().get(inp[0], []):
+                # `input` must not be advanced between the test and the push
+                gb = [b for b in range(len(fn.blocks)) if fn.blocks[b]["term"]["k"] == "switch" and "is_empty" in show(val(fn.expr_operand(fn.blocks[b]["term"]["op"])))]
+                if fn.paths_avoiding(d[1], bi, set(gb)):
+                    ok = False
+        ctx.ob(ok, "chunk-closed-only-with-more-input", t.get("s"),
+               "push_cv(self.chunk_state.output().chaining_value(), ..) is dominated by `input` being non-empty: %s" % ok)
+    ctx.floor("pushes of the current chunk's own chaining value in update", n, 1)
